@@ -136,6 +136,9 @@ type Ctx struct {
 	dl      time.Time
 }
 
+// Violated reports whether this job has already recorded a violation.
+func (c *Ctx) Violated() bool { return len(c.Violations) > 0 }
+
 func (c *Ctx) Thorough() bool { return c.Tier == "thorough" }
 
 // Expired reports whether the tier budget is used up; searches stop and report Capped.
